@@ -48,6 +48,15 @@ def signature(v):
 def guarded_run(check, case, timeout_s):
     """Runs one case under the watchdog.  Returns (result, harness_traceback_or_None)."""
     try:
+        # the process-wide PRNGs are a source of nondeterminism too: code under test that draws from them (a
+        # randomised pivot, say) must draw the same numbers in every execution of the same case
+        import random as _random
+        _random.seed(0x6753494D)
+        try:
+            import numpy as _np
+            _np.random.seed(0x6753494D & 0x7FFFFFFF)
+        except Exception:
+            pass
         with Watchdog(timeout_s):
             res = check.run_case(case)
         return res, None
